@@ -99,6 +99,12 @@ def cases(tier, seed):
       chunk = []
   if chunk:
     out.append({"pairs": chunk})
+  # po2 weights / inputs whose max_value is NOT a power of two: the operand lattice is *observed* by running the
+  # real quantizer (quantized_po2 clips to max_value and then rounds log2, so max_value=3 emits 4)
+  for bits in (3, 4, 5, 6):
+    for mv in (3.0, 6.0, 7.0, 12.0, 1.5, 24.0, 100.0):    # > 1 only: max_value <= 1 is the exponent-range mismatch F-C18-3
+      for wcls in ("quantized_po2", "quantized_relu_po2"):
+        out.append({"observed": {"wcls": wcls, "bits": bits, "mv": mv}})
   rnd.shuffle(out)
   for i, c in enumerate(out):
     c["idx"], c["seed"] = i, seed
@@ -311,7 +317,76 @@ def run_pair(ctx, ws, xs):
     ctx.count("contract_failures")
 
 
+def _observed_values(q, signed_probe=True):
+  """Distinct values the real qkeras quantizer emits over a dense log/linear probe grid (as Fractions)."""
+  import numpy as np
+  import tensorflow as tf
+  from fractions import Fraction
+  # magnitudes stay below 2^9: far beyond that x + (-x + xq) absorbs the code in float32 and the "values" are artefacts
+  mags = np.concatenate([2.0 ** np.linspace(-40, 9, 981), np.linspace(0, 300, 1201)])
+  x = np.concatenate([mags, -mags, [0.0]]).astype(np.float32)
+  y = np.unique(np.asarray(q(tf.constant(x)), dtype=np.float64))
+  return [Fraction(float(v)) for v in y]
+
+
+def run_observed(case, ctx):
+  """Operand lattices observed from the running quantizers (non power-of-two max_value)."""
+  from qkeras import quantizers as Q
+  from qkeras.qtools.quantized_operators import quantizer_factory
+  from vf.monitors.contracts import ContractFail
+  o = case["observed"]
+  wk = getattr(Q, o["wcls"])(o["bits"], max_value=o["mv"])
+  fac = quantizer_factory.QuantizerFactory()
+  xs = [("fs", Q.quantized_bits(4, 1, 1)), ("fs", Q.quantized_bits(6, 3, 0)), ("fu", Q.quantized_relu(4, 2)),
+        ("fu", Q.quantized_relu(5, 5)), ("bpm", Q.binary(alpha=1.0)), ("t", Q.ternary(alpha=1.0))]
+  W = _observed_values(wk)
+  for xkind, xk in xs:
+    X = _observed_values(xk)
+    for order in ("w_po2", "x_po2"):
+      a_k, b_k = (wk, xk) if order == "w_po2" else (xk, wk)
+      A, B = (W, X) if order == "w_po2" else (X, W)
+      base = {"observed_operands": True, "po2": o["wcls"], "other": xkind, "order": order}
+      ok, ab = ctx.call(dict(base, op="convert"), lambda: (fac.make_quantizer(a_k), fac.make_quantizer(b_k)))
+      if not ok:
+        continue
+      ok, m = ctx.call(dict(base, op="make_multiplier"), _S["mf"].make_multiplier, ab[0], ab[1], _allowed=(ContractFail,))
+      if not ok:
+        continue
+      ctx.count("observed_operand_pairs")
+      O = ty.from_reported(m.output)
+      if O.kind == "float":
+        continue
+      ea = sorted(set([min(A), max(A)] + [v for v in A if v > 0][:1] + [v for v in A if v < 0][-1:]))
+      eb = sorted(set([min(B), max(B)] + [v for v in B if v > 0][:1] + [v for v in B if v < 0][-1:]))
+      mina, minb = min(A), min(B)
+      n = 0
+      for a in ea:
+        for b in eb:
+          if mina < 0 and minb < 0 and a == mina and b == minb:
+            continue
+          n += 1
+          why = ty.why_not(O, a * b, zero_ok=True)
+          if why is not None:
+            short = ty.shortfall_bits(O, a * b) if why in ("above_max", "below_min", "exp_above_max", "exp_below_min") else None
+            if O.kind == "po2" and why in ("exp_above_max",) and True:
+              # the reported po2 type caps its exponent at floor(log2(max_value)) in vf/ref/types.py; with a non
+              # power-of-two max_value that reading is ambiguous, so po2-typed outputs are observed only here
+              ctx.observe("observed_operands_po2_output_cap_ambiguous", {"case": o, "product": ty.fmt(a * b)})
+              continue
+            ctx.violation(dict(base, kind="observed_product_not_representable", fail=why,
+                               short_bits=None if short is None else (short if short <= 2 else "3+"), impl=m.implemented_as()),
+                          "%s * %s = %s (values emitted by the real quantizers, max_value=%s) is not a value of the reported output %s" % (
+                              ty.fmt(a), ty.fmt(b), ty.fmt(a * b), o["mv"], ty.describe(O)),
+                          {"case": o, "other": str(xk), "out": ty.fields(m.output)})
+      ctx.count("observed_products_checked", n)
+      ctx.evals(n)
+      ctx.nontrivial("observed", o["wcls"], o["bits"], o["mv"], xkind, order)
+
+
 def run_case(case, ctx):
+  if "observed" in case:
+    run_observed(case, ctx)
+    return
   if "pairs" in case:
     for ws, xs in case["pairs"]:
       ctx.count("random_wide_pairs")
